@@ -21,7 +21,10 @@ def retro_screen_kwargs(rng, flavour=None):
         kw = gen.realistic_screen_kwargs(rng, n_samples=(1, 4), n_rows=(2, 25), n_plates=(1, 1), p_single=0.3, observed="none")
     else:
         kw = gen.realistic_screen_kwargs(rng, n_samples=(1, 4), n_drugs=(4, 8), n_rows=(8, 60), n_plates=(1, 6), p_single=0.0, p_dup=0.1, observed=observed)
-    if flavour in ("mixed", "per_sample") and rng.random() < 0.12:
+    if flavour in ("mixed", "per_sample") and rng.random() < 0.01:
+        kw = gen.realistic_screen_kwargs(rng, n_samples=(3, 8), n_drugs=(4, 8), n_doses=(2, 3), n_rows=(1500, 4500), n_plates=(4, 40), p_single=0.2, p_dup=0.1, p_double_control=pdc, observed=observed, plate_per_sample=(flavour == "per_sample"))
+        flavour += "-large"
+    elif flavour in ("mixed", "per_sample") and rng.random() < 0.12:
         # other arities: three treatments per experiment (partial combinations) or one
         ar = int(rng.choice([1, 3]))
         kw = gen.realistic_screen_kwargs(rng, n_samples=(1, 5), n_drugs=(3, 6), n_rows=(3, 50), n_plates=(1, 8), p_single=0.2, p_dup=0.2, p_double_control=pdc, observed=observed, plate_per_sample=(flavour == "per_sample"), arity=ar)
